@@ -32,6 +32,10 @@ theorem fail_recorders : failRecorders = ["expect", "expectPeek"] := by decide
 /-- The `return nil`s without a recorded error or a failed callee are exactly the reviewed ones. -/
 theorem silent_returns_reviewed : silent.map (·.key) = DC.Spec.AssumedNilReturns.reviewed := by decide +kernel
 
+/-- The pointer-returning parse functions that can return a literal nil are exactly the reviewed ones. -/
+theorem pointer_nil_returns_reviewed :
+    (returns.filter (fun r => r.result.startsWith "*")).map (·.func) = DC.Spec.AssumedNilReturns.pointerNil := by decide +kernel
+
 /-! non-vacuity and the expectation tests of the translator -/
 
 example : returns.length ≥ 40 := by decide +kernel
